@@ -142,7 +142,16 @@ func main() {
 	real := filepath.Join(scratch, "c01", "real")
 	os.MkdirAll(real, 0o755)
 	os.Symlink(real, filepath.Join(scratch, "c01", "link"))
-	dirs := map[string]string{"plain": filepath.Join(scratch, "c01", "A"), "symlinked-ancestor": filepath.Join(scratch, "c01", "link", "mod"), "long-path": long}
+	// a location below a directory holding a go.work that belongs to somebody else (it lists
+	// another module, not this one): where a file lives must not make the loader pick up a
+	// workspace
+	ws := filepath.Join(scratch, "c01", "ws")
+	os.MkdirAll(filepath.Join(ws, "othermod"), 0o755)
+	os.WriteFile(filepath.Join(ws, "othermod", "go.mod"), []byte("module example.com/othermod\n\ngo 1.24\n"), 0o644)
+	os.WriteFile(filepath.Join(ws, "othermod", "o.go"), []byte("package othermod\n\nfunc O() int { return 1 }\n"), 0o644)
+	os.WriteFile(filepath.Join(ws, "go.work"), []byte("go 1.24\n\nuse ./othermod\n"), 0o644)
+	dirs := map[string]string{"plain": filepath.Join(scratch, "c01", "A"), "symlinked-ancestor": filepath.Join(scratch, "c01", "link", "mod"), "long-path": long,
+		"below-foreign-go.work": filepath.Join(ws, "projects", "mod")}
 	var files []string
 	multi := map[string]bool{}
 	for i := 0; i < nFiles; i++ {
@@ -181,6 +190,13 @@ func main() {
 		cmd.Dir = filepath.Dir(file)
 		out, err := cmd.Output()
 		if err != nil {
+			if ee, ok := err.(*exec.ExitError); ok && len(ee.Stderr) > 0 {
+				t := string(ee.Stderr)
+				if len(t) > 400 {
+					t = t[len(t)-400:]
+				}
+				return nil, fmt.Errorf("%v: %s", err, t)
+			}
 			return nil, fmt.Errorf("%v", err)
 		}
 		var o map[string][]triple
@@ -225,6 +241,18 @@ func main() {
 						defer wg.Done()
 						defer func() { <-sem }()
 						o, err := child(filepath.Join(d, rel), gmp)
+						if err != nil && dn != "plain" {
+							// the golden observation of this very source succeeded: a second failure
+							// at this location is a location-dependent result, not a transient fault
+							if _, err2 := child(filepath.Join(d, rel), gmp); err2 != nil {
+								mu.Lock()
+								res.Eval(1)
+								res.Violate("nondeterministic/directory/"+dn, fmt.Sprintf("%s cannot be fingerprinted in directory %s (GOMAXPROCS=%d) although the same source was fingerprinted elsewhere: %v", rel, dn, gmp, err2), map[string]any{"file": rel, "dir": d, "gomaxprocs": gmp})
+								mu.Unlock()
+								return
+							}
+							o, err = child(filepath.Join(d, rel), gmp)
+						}
 						mu.Lock()
 						defer mu.Unlock()
 						if err != nil {
